@@ -1,9 +1,79 @@
 import Driver.Loop
+import Midgard.Model.Purity
 
-/-! Driver for C16: placeholder until the model is written. -/
+/-! Driver for C16.
+
+  c16 obstypes <shared|local> <pre> <lines>     header parse with the function-level list `pre`
+        lines / pre: comma separated `hex(sys):hex(t1);hex(t2)…` (`[]` = none, `.` = empty text)
+        → `err <cachelen>` | `ok <hex(sys)=hex(t);…,…|-> <cachelen>`
+  c16 cover <hex(cell id)>                      → memo | registry | sink | none
+  c16 effects                                   → number of effect cells, number covered
+  c16 reg <n1,n2,…>                             `plugins.get` of the names in order from an empty registry
+        → `<found|missing>,… keys=<sorted registered names>`
+-/
 namespace Driver.C16
+open Midgard.Proto Midgard.Purity Midgard.Generated.ParserEffects
+
+def parseTxt? (s : String) : Option Str := (decodeHex? s).map String.toList
+
+def parseLine? (s : String) : Option ObsLine :=
+  match s.splitOn ":" with
+  | [a, b] => do
+    let sys ← parseTxt? a
+    let ts ← if b = "" then some [] else (b.splitOn ";").mapM parseTxt?
+    pure ⟨sys, ts⟩
+  | _ => none
+
+def showTxt (s : Str) : String := encodeHex (String.ofList s)
+
+def showObs (h : ObsTypes) : String :=
+  if h.isEmpty then "-" else
+  ",".intercalate (h.map fun p => showTxt p.1 ++ "=" ++ ";".intercalate (p.2.map showTxt))
+
+def parseMech? : String → Option CacheMech
+  | "shared" => some .shared
+  | "local" => some .local
+  | _ => none
+
+def showCover : Option Cover → String
+  | some .memo => "memo" | some .registry => "registry" | some .sink => "sink" | none => "none"
+
+def parserNames : List String := parserPlugins.map (·.1)
+
+def defn (n : String) : Option String := if n ∈ parserNames then some n else none
+
+def closureOf (n : String) : List String := (parserImportClosure.lookup n).getD []
+
+def insertSorted (x : String) : List String → List String
+  | [] => [x]
+  | y :: r => if x ≤ y then x :: y :: r else y :: insertSorted x r
+
+def sortStrings (l : List String) : List String := l.foldr insertSorted []
+
+def regRun (names : List String) : List Bool × List (String × String) :=
+  names.foldl (fun (acc : List Bool × List (String × String)) n =>
+    let r := regGet defn closureOf acc.2 n
+    (acc.1 ++ [r.1.isSome], r.2)) ([], [])
 
 def handle : List String → Option String
+  | ["c16", "obstypes", m, pre, lines] => do
+    let m ← parseMech? m
+    let pre ← parseList? parseLine? pre
+    let lines ← parseList? parseLine? lines
+    let r := parseHeader m pre lines
+    match r.1 with
+    | none => pure s!"err {r.2.length}"
+    | some h => pure s!"ok {showObs h} {r.2.length}"
+  | ["c16", "cover", c] => do
+    let c ← decodeHex? c
+    pure (showCover (coverOf c))
+  | ["c16", "effects"] =>
+    some s!"{effects.length} {(effects.filter fun e => (coverOf e).isSome).length}"
+  | ["c16", "reg", names] => do
+    let ns ← parseList? some names
+    let r := regRun ns
+    pure (",".intercalate (r.1.map fun b => if b then "found" else "missing") ++ " keys=" ++
+      ",".intercalate (sortStrings (regKeys r.2)))
   | _ => none
 
 end Driver.C16
